@@ -1,12 +1,12 @@
 // vacuity canary: exercise the assumed Take / File / FixedBuf contracts, then claim false -- must FAIL
 fn canary_body<R: AsyncRead>(r: R, dir: &Path) {
-    broadcast use reader_resolved, writer_resolved, seq_events, b_take_resolved;
+    broadcast use reader_resolved, writer_resolved, seq_events, b_take_fate;
     let mut t = AsyncReadExt::take(r, 10);
     let mut v: Vec<u8> = Vec::new();
     let x = t.read_to_end(&mut v);
     let mut b = [0u8; 4];
     let y = t.read(&mut b);
-    proof { t.take_inv(); t.within_limit(); }
+    proof { t.take_fate(); t.within_limit(); }
     let mut fb: FixedBuf<16> = FixedBuf::new();
     let w = fb.writable();
     fb.wrote(3);
